@@ -65,6 +65,12 @@ class Unit:
         self.contracts = {c.key: c for c in contracts}
         # cfg['strip_clauses'] = {function key: [clause names] | '*'}: clauses that do not hold in this unit's world are NOT emitted (the
         # function stays verified against the rest; callers learn nothing from a stripped clause).  '*' removes the whole block.
+        # cfg['force_assumed'] = [key regex]: functions verified in ANOTHER unit against the identical (world-independent) contract and only
+        # assumed here (E9), because their body cannot be compiled in this unit
+        for k, c in self.contracts.items():
+            if any(re.search(rx, k) for rx in cfg.get('force_assumed', ())):
+                c.mode = 'assumed'
+                c.outlines = []
         for k, names in cfg.get('strip_clauses', {}).items():
             c = self.contracts.get(k)
             if c is None:
@@ -106,10 +112,12 @@ class Unit:
         """a hand-written prelude/lemma file, with the unit's `prelude_rewrites` [(file, old, new)] applied (exact text, each must
         match exactly once: fail closed)"""
         txt = open(os.path.join(self.cfg['verif_root'], rel)).read()
-        for (f, old, new) in self.cfg.get('prelude_rewrites', ()):
+        for rw in self.cfg.get('prelude_rewrites', ()):
+            f, old, new = rw[:3]
+            want = rw[3] if len(rw) > 3 else 1
             if f == rel:
-                if txt.count(old) != 1:
-                    raise ExtractError('prelude rewrite of %s: text %r occurs %d times (expected once)' % (rel, old[:60], txt.count(old)))
+                if txt.count(old) != want:
+                    raise ExtractError('prelude rewrite of %s: text %r occurs %d times (expected %d)' % (rel, old[:60], txt.count(old), want))
                 txt = txt.replace(old, new)
                 self.rule('E14.prelude_rewrite')
         return txt
@@ -118,6 +126,9 @@ class Unit:
     def cfg_dropped(self, attrs):
         for a in attrs:
             if re.match(r'#\[cfg\(', a):
+                m = re.match(r'#\[cfg\(\s*feature\s*=\s*"([\w-]+)"\s*\)\]$', norm_ws(a))
+                if m and m.group(1) in self.cfg.get('features', ()):
+                    continue      # the unit is built with this cargo feature of the crate enabled (e.g. `internals`, which the Taproot crate needs)
                 return a
             if re.match(r'#\[macro_use', a):
                 return a
@@ -406,6 +417,34 @@ class Unit:
             out_v += '\n' + '\n'.join(X)
         return out_v, out_p
 
+    def qualify_trait_names(self, t):
+        """type names in a signature copied from the prelude trait -> crate-absolute paths (the suite's module has other names in scope).
+        The table is read from the `use crate::{..}` block of the prelude traits file."""
+        tab = getattr(self, '_trait_names', None)
+        if tab is None:
+            tab = {}
+            src = open(os.path.join(self.cfg['verif_root'], self.cfg['traits_prelude'])).read()
+            m = re.search(r'use crate::\{(.*?)\n\};', src, re.S)
+
+            def walk(txt, prefix):
+                for part in split_depth0(txt, ',', angle=False):
+                    part = part.strip()
+                    if not part:
+                        continue
+                    g = re.match(r'([\w:]+)::\{(.*)\}$', part, re.S)
+                    if g:
+                        walk(g.group(2), prefix + '::' + g.group(1))
+                    elif part == 'self':
+                        tab[prefix.split('::')[-1]] = prefix
+                    else:
+                        tab[part.split('::')[-1]] = prefix + '::' + part
+            if m:
+                walk(m.group(1), 'crate')
+            self._trait_names = tab
+        for nm, full in tab.items():
+            t = re.sub(r'(?<![\w:])%s\b' % nm, full, t)
+        return t
+
     @staticmethod
     def param_names(params):
         out = []
@@ -455,7 +494,8 @@ class Unit:
             args = ', '.join(self.param_names(h['params']))
             ntp = len([g for g in (h['generics'][1:-1].split(',') if h['generics'] else []) if g.strip() and not g.strip().startswith("'")])
             text = 'fn %s%s(%s)%s %s {\n    crate::traits_defaults::default_%s::<Self%s>(%s)\n}' % (
-                name, h['generics'], h['params'], (' -> ' + h['ret']) if h['ret'] else '', h['where'], name, ', _' * ntp, args)
+                name, h['generics'], self.qualify_trait_names(h['params']), (' -> ' + self.qualify_trait_names(h['ret'])) if h['ret'] else '',
+                self.qualify_trait_names(h['where']), name, ', _' * ntp, args)
             sub = Item([], text, 0, text)
             sub.line, sub.end_line = it.line, it.line
             sub.synth = True
@@ -471,7 +511,7 @@ class Unit:
                 ren = dict(zip(self.param_names(h['params']), self.param_names(f.params)))
 
                 def adapt(t):
-                    t = deself(t)
+                    t = deself(self.qualify_trait_names(t))
                     for a, b in ren.items():
                         if a != b:
                             t = re.sub(r'(?<![\w.])%s\b' % re.escape(a), b, t)
@@ -595,8 +635,8 @@ class Unit:
         e = f.body.strip()[1:-1].strip()
         if not e or not re.match(r'^[\w\s.&*():<>,{}]+$', e):
             return False
-        if f.ret.startswith('&['):
-            return False
+        if f.ret.startswith('&[') or '::<' in e:
+            return False      # (a turbofish call `f::<T>(..)` is not a constructor)
         for m in re.finditer(r'(\w+)\s*\(', e):
             if not (m.group(1)[0].isupper()):
                 return False
